@@ -17,6 +17,8 @@ use std::collections::BTreeMap;
 #[derive(Clone, Debug, Serialize, Deserialize, PartialEq)]
 pub enum Dev {
     ReplaceV(usize),
+    /// cofactor curves only: the verifier's commitment differs by a small-order point
+    ReplaceVTorsion(usize),
     SwapV(usize, usize),
     /// the shape contains CommitExtraV / CommitSkipV / MsgDev / verifier_label / verifier_pre_msg
     InShape,
@@ -37,13 +39,23 @@ pub struct C05Case {
 }
 
 /// Apply the deviation to the shared state / bases (generic: carriers or plain curve).
-pub fn apply_dev<G: AffineRepr>(case: &C05Case, shr: &std::rc::Rc<std::cell::RefCell<Shared<G>>>, pc: &PedersenGens<G>, rng: &mut rand_chacha::ChaChaRng, delta: G::ScalarField) -> (PedersenGens<G>, Option<G>) {
+pub fn apply_dev<G: AffineRepr>(case: &C05Case, shr: &std::rc::Rc<std::cell::RefCell<Shared<G>>>, pc: &PedersenGens<G>, rng: &mut rand_chacha::ChaChaRng, delta: G::ScalarField, torsion: &Option<Vec<G>>) -> (PedersenGens<G>, Option<G>) {
     let mut sh = shr.borrow_mut();
     let mut vpc = *pc;
     let mut fresh = None;
     let mut new_point = |rng: &mut rand_chacha::ChaChaRng| -> G { G::Group::rand(rng).into_affine() };
-    sh.extra_commitment = Some(new_point(rng));
+    if sh.extra_commitment.is_none() {
+        sh.extra_commitment = Some(new_point(rng));
+    }
     match &case.dev {
+        Dev::ReplaceVTorsion(j) => {
+            if let Some(ts) = torsion {
+                let t = ts[0];
+                fresh = Some(t);
+                let nv: G = (sh.verifier_commitments[*j].into_group() + t.into_group()).into_affine();
+                sh.verifier_commitments[*j] = nv;
+            }
+        }
         Dev::ReplaceV(j) => {
             let D = new_point(rng);
             fresh = Some(D);
@@ -74,10 +86,11 @@ pub fn apply_dev<G: AffineRepr>(case: &C05Case, shr: &std::rc::Rc<std::cell::Ref
     (vpc, fresh)
 }
 
-pub fn job_c05<C: Base + 'static>(case: &C05Case, seed: u64, curve: &str) -> Job
+pub fn job_c05<C: Base + 'static>(case: &C05Case, seed: u64, curve: &str, torsion: Option<Vec<C>>) -> Job
 where
     C::ScalarField: Inner,
 {
+    let torsion: Option<Vec<SymA<C>>> = torsion.map(|v| v.into_iter().map(SymA::concrete).collect());
     arena::reset();
     arena::set_ctx("setup");
     let shape = &case.shape;
@@ -87,6 +100,13 @@ where
     let bp = BulletproofGens::<SymA<C>>::new(pad, 1);
     let bases = name_bases(&pc, &bp, pad);
     let shr = new_shared::<SymA<C>>(shape, &Default::default(), Box::new(SymVals::<C::ScalarField>::new(seed)));
+    {
+        // the point used by the MsgPointV / CommitExtraV deviations must exist before the prover runs
+        let mut r0 = rand_chacha::ChaChaRng::seed_from_u64(seed ^ 0xe7);
+        let p = SymA::concrete(C::Group::rand(&mut r0).into_affine());
+        p.name_basis("Extra");
+        shr.borrow_mut().extra_commitment = Some(p);
+    }
     arena::set_ctx("prove");
     let (proof, _pt) = prove_shape(shape, &shr, &pc, &bp, seed);
     let proof = match proof {
@@ -112,6 +132,7 @@ where
                 .map(|o| match o {
                     Op::MsgDev(a, _) => Op::MsgDev(a.clone(), a.clone()),
                     Op::CommitSkipV => Op::Commit,
+                    Op::MsgPointV => Op::MsgPointVHonest,
                     x => x.clone(),
                 })
                 .collect()
@@ -129,7 +150,7 @@ where
     let mut rng = rand_chacha::ChaChaRng::seed_from_u64(seed ^ 0xc05);
     let mut dv = SymVals::<C::ScalarField>::new(seed ^ 0xde);
     let delta = dv.fresh("delta");
-    let (vpc, fresh) = apply_dev(case, &shr, &pc, &mut rng, delta);
+    let (vpc, fresh) = apply_dev(case, &shr, &pc, &mut rng, delta, &torsion);
     if let Some(D) = fresh {
         D.name_basis("Dev");
     }
@@ -316,7 +337,10 @@ where
 }
 
 /// Native: the deviating statement must be rejected.
-pub fn c05_native<G: AffineRepr + 'static>(case: &C05Case, seed: u64, model: std::collections::HashMap<String, String>) -> Vec<(String, bool)> {
+pub fn c05_native<G: AffineRepr + 'static>(case: &C05Case, seed: u64, model: std::collections::HashMap<String, String>, torsion: Option<Vec<G>>) -> Vec<(String, bool)> {
+    if matches!(case.dev, Dev::ReplaceVTorsion(_)) && torsion.is_none() {
+        return vec![];
+    }
     let mut out = vec![];
     let shape = &case.shape;
     let pad = shape.padded();
@@ -324,6 +348,10 @@ pub fn c05_native<G: AffineRepr + 'static>(case: &C05Case, seed: u64, model: std
     let bp = BulletproofGens::<G>::new(pad, 1);
     let delta = model.get("delta0").and_then(|s| parse_rational::<G::ScalarField>(s)).filter(|d| !d.is_zero()).unwrap_or(G::ScalarField::from(seed + 3));
     let shr = new_shared::<G>(shape, &Default::default(), Box::new(PlainVals::<G::ScalarField>::new(model, seed)));
+    {
+        let mut r0 = rand_chacha::ChaChaRng::seed_from_u64(seed ^ 0xe7);
+        shr.borrow_mut().extra_commitment = Some(G::Group::rand(&mut r0).into_affine());
+    }
     let (proof, _) = prove_shape(shape, &shr, &pc, &bp, seed);
     let proof = match proof {
         Ok(p) => p,
@@ -343,6 +371,7 @@ pub fn c05_native<G: AffineRepr + 'static>(case: &C05Case, seed: u64, model: std
                 .map(|o| match o {
                     Op::MsgDev(a, _) => Op::MsgDev(a.clone(), a.clone()),
                     Op::CommitSkipV => Op::Commit,
+                    Op::MsgPointV => Op::MsgPointVHonest,
                     x => x.clone(),
                 })
                 .collect()
@@ -357,7 +386,7 @@ pub fn c05_native<G: AffineRepr + 'static>(case: &C05Case, seed: u64, model: std
     let honest_commitments = shr.borrow().commitments.clone();
     shr.borrow_mut().verifier_commitments = honest_commitments;
     let mut rng = rand_chacha::ChaChaRng::seed_from_u64(seed ^ 0xc05);
-    let (vpc, _) = apply_dev(case, &shr, &pc, &mut rng, delta);
+    let (vpc, _) = apply_dev(case, &shr, &pc, &mut rng, delta, &torsion);
     let mut vt = new_verifier_transcript(shape);
     let res = build_verifier(shape, &shr, &mut vt).verify(&proof, &vpc, &bp);
     out.push((format!("deviating statement ({:?}) is rejected", case.dev), res.is_err()));
@@ -377,6 +406,8 @@ pub fn c05_cases(thorough: bool) -> Vec<C05Case> {
         mk("reordered_with_identity_commitment_equal_weights", Shape::new("sum", &[Commit, Commit, CommitZero, AllocMul, ConSum], &[]), Dev::SwapV(1, 2), true),
         mk("extra_commitment", Shape::new("extra", &[Commit, AllocMul, Con, CommitExtraV], &[]), Dev::InShape, true),
         mk("missing_commitment", Shape::new("missing", &[Commit, AllocMul, Con, CommitSkipV], &[]), Dev::InShape, true),
+        mk("application_data_framed_like_a_commitment_vs_extra_commitment", Shape::new("msgpointv", &[Commit, AllocMul, Con, MsgPointV], &[]), Dev::InShape, true),
+        mk("commitment_plus_small_order_point", base.clone(), Dev::ReplaceVTorsion(0), true),
         mk("different_label", { let mut s = base.clone(); s.verifier_label = Some("other".into()); s }, Dev::InShape, true),
         mk("different_data_before_construction", { let mut s = base.clone(); s.pre_msg = Some("ctx".into()); s.verifier_pre_msg = Some("cty".into()); s }, Dev::InShape, true),
         mk("missing_data_before_construction", { let mut s = base.clone(); s.pre_msg = Some("ctx".into()); s.verifier_pre_msg = Some("".into()); s }, Dev::InShape, true),
